@@ -235,6 +235,11 @@ pub fn build(code: u32, need_reply: bool, var: &str, v: u64, rng: &mut Rng) -> B
             if var == "fixed" {
                 size = 8;
             }
+            if var == "max" {
+                // the largest message the protocol allows: header size field = 12 + 4084 = 4096
+                off = rng.below(13) as u32;
+                size = 0x1000 - 12;
+            }
             let mut flags = rng.below(4) as u32;
             let mut plen = size as usize;
             match rule {
